@@ -110,3 +110,19 @@ Theorem C04_history :
               map k_seq K = map (seqn d) (seq 0 (List.length K)).
 Proof. exact history_packets. Qed.
 Print Assumptions C04_history.
+
+From BT.Tracer Require Import HistoryBounds.
+Theorem C04_history_buffers :
+  forall d user cs_size, wf_d d user cs_size ->
+  forall buf oracle h,
+    fits cs_size (8 * buf) -> or_ok cs_size oracle -> Forall (call_ok d) h ->
+    let w0 := mk_w (init_ctx buf) oracle 0%Z [] false user in
+    let w1 := step d w0 COpen in
+    c_open (w_c w1) = true -> offb w1 -> offb_run d w1 h ->
+    let w := run d buf user oracle (COpen :: h) in
+    w_err w = false ->
+    exists K, Forall2 (pkt_ok d user) (pkts (obs (w_log w))) K /\
+              map k_disc K = snaps 0 (obs (w_log w)) /\
+              map k_seq K = map (seqn d) (seq 0 (List.length K)).
+Proof. exact history_packets_offb. Qed.
+Print Assumptions C04_history_buffers.
